@@ -16,6 +16,8 @@ import MdkVerif.Props.C01Fork
   §C  stale events (created on a branch the client is not on) keep the fork simulation: mixed runs.
   §D  one fork level for a client in any role (`AtFork`), with everything the simulation knows exposed.
   §E  the induction over the levels of a chain (stale events interleaved; the pure case as a corollary).
+  §F  a rollback over two epochs (unfolds `wrongEpochCommit`, `isBetter`, `rollbackTo`, `mgrCreate`).
+  §G  the consumed ratchet generations: frame and invariant (unfolds the step functions like §A).
 -/
 namespace MdkVerif.Chain
 open MdkVerif MdkVerif.Client MdkVerif.Fork MdkVerif.Props.C01Fork
@@ -1358,6 +1360,278 @@ theorem depth2_core (c : Cl) (a b a' : Ev) (nx : Nat)
     rw [e, e2]
     have : epochOf c.g.path < epochOf c1.g.path + 1 := by rw [hp1, epochOf_snoc]; omega
     simp [rbRec, rbRec1, rbRec2, rec2, this]
+
+/-! ## §G  the consumed ratchet generations (unfolds the step functions of Model.Client)
+
+  `consumed` after a delivery ⊆ old `consumed` ∪ {e.cipher} — NOT for every state: a rollback restores the
+  list saved in a snapshot, which for an arbitrary state is arbitrary (`Props.C01Chain.consumed_frame_needs_inv`).
+  It holds for every state whose snapshots hold sub-lists of the current list, oldest first (`ConsMono`),
+  which every operation preserves (so every reachable state satisfies it). -/
+
+structure ConsMono (c : Cl) : Prop where
+  below : ∀ s ∈ c.mgr, ∀ x ∈ s.saved.consumed, x ∈ c.g.consumed
+  sorted : c.mgr.Pairwise (fun a b => ∀ x ∈ a.saved.consumed, x ∈ b.saved.consumed)
+
+/-- the invariant is kept and the consumed list grew by at most `x` -/
+structure CStep (x : Nat) (c c' : Cl) : Prop where
+  inv : ConsMono c'
+  sub : ∀ y ∈ c'.g.consumed, y ∈ c.g.consumed ∨ y = x
+
+theorem cstep_refl (x : Nat) (c : Cl) (h : ConsMono c) : CStep x c c := ⟨h, fun _ hy => Or.inl hy⟩
+
+theorem CStep.trans {x : Nat} {a b c : Cl} (h1 : CStep x a b) (h2 : CStep x b c) : CStep x a c :=
+  ⟨h2.inv, fun y hy => by
+    rcases h2.sub y hy with z | z
+    · exact h1.sub y z
+    · exact Or.inr z⟩
+
+/-- same snapshots, consumed list grown by at most `x` -/
+theorem cstep_grow (x : Nat) (c c' : Cl) (h : ConsMono c) (hm : c'.mgr = c.mgr)
+    (h1 : ∀ y ∈ c.g.consumed, y ∈ c'.g.consumed) (h2 : ∀ y ∈ c'.g.consumed, y ∈ c.g.consumed ∨ y = x) : CStep x c c' :=
+  ⟨⟨fun s hs y hy => h1 y (h.below s (hm ▸ hs) y hy), hm ▸ h.sorted⟩, h2⟩
+
+theorem cstep_same (x : Nat) (c c' : Cl) (h : ConsMono c) (hm : c'.mgr = c.mgr) (hg : c'.g.consumed = c.g.consumed) :
+    CStep x c c' :=
+  cstep_grow x c c' h hm (fun _ hy => hg ▸ hy) (fun _ hy => Or.inl (hg ▸ hy))
+
+/-- snapshot the current state, then continue with the same consumed list -/
+theorem cstep_mgrCreate_then (x : Nat) (c : Cl) (ep : Nat) (e : Ev) (c' : Cl) (h : ConsMono c)
+    (hm : c'.mgr = (mgrCreate c ep e).mgr) (hg : c'.g.consumed = c.g.consumed) : CStep x c c' := by
+  have hq : ∀ s ∈ c.mgr ++ [({ epoch := ep, commit := e.idnum, ts := e.ts, saved := c.g } : Snap)],
+      ∀ y ∈ s.saved.consumed, y ∈ c.g.consumed := by
+    intro s hs y hy
+    rcases List.mem_append.mp hs with z | z
+    · exact h.below s z y hy
+    · simp at z; subst z; exact hy
+  have hsorted : (c.mgr ++ [({ epoch := ep, commit := e.idnum, ts := e.ts, saved := c.g } : Snap)]).Pairwise
+      (fun a b => ∀ x ∈ a.saved.consumed, x ∈ b.saved.consumed) := by
+    apply List.pairwise_append.mpr
+    refine ⟨h.sorted, List.pairwise_singleton _ _, ?_⟩
+    intro a ha b hb
+    simp at hb; subst hb
+    exact h.below a ha
+  refine ⟨⟨?_, ?_⟩, fun y hy => Or.inl (hg ▸ hy)⟩
+  · intro s hs y hy
+    rw [hm] at hs
+    rw [hg]
+    exact hq s (List.mem_of_mem_drop hs) y hy
+  · rw [hm]
+    exact hsorted.sublist (List.drop_sublist _ _)
+
+theorem cstep_rollbackTo (x : Nat) (c c1 : Cl) (ep : Nat) (h : ConsMono c) (hr : rollbackTo c ep = some c1) : CStep x c c1 := by
+  unfold rollbackTo at hr
+  split at hr
+  · cases hr
+  · rename_i i hi
+    split at hr
+    · cases hr
+    · rename_i s rest hd
+      cases hr
+      have hs : s ∈ c.mgr := List.mem_of_mem_drop (by rw [hd]; simp)
+      have hsplit : c.mgr = c.mgr.take i ++ s :: rest := by rw [← hd, List.take_append_drop]
+      have hsorted := h.sorted
+      rw [hsplit] at hsorted
+      obtain ⟨h1, _, h3⟩ := List.pairwise_append.mp hsorted
+      exact ⟨⟨fun t ht => h3 t ht s List.mem_cons_self, h1⟩, fun y hy => Or.inl (h.below s hs y hy)⟩
+
+theorem mergeCommit_consumed (mp : Nat) (g : GState) (e : Ev) : (mergeCommit mp g e).consumed = g.consumed := by
+  unfold mergeCommit
+  split
+  · rename_i b sw _
+    cases b <;> rfl
+  · rfl
+
+theorem updLast_consumed (g : GState) (m t : Nat) : (updLast g m t).consumed = g.consumed := by
+  unfold updLast
+  split
+  · rfl
+  · split <;> rfl
+
+theorem ensureSecret_consumed (g : GState) : (ensureSecret g).consumed = g.consumed :=
+  (ensureSecret_fields g).2.2.2.2.2.2.2.2.2.2.1
+
+theorem cstep_notBetterResult (x : Nat) (c : Cl) (e : Ev) (h : ConsMono c) : CStep x c (notBetterResult c e).1 := by
+  unfold notBetterResult
+  split
+  · split
+    · exact cstep_same x c _ h rfl rfl
+    · exact cstep_same x c _ h rfl rfl
+  · exact cstep_same x c _ h rfl rfl
+
+theorem cstep_ownMessage (x : Nat) (c : Cl) (e : Ev) (h : ConsMono c) : CStep x c (ownMessage c e).1 := by
+  unfold ownMessage
+  repeat' split
+  all_goals exact cstep_same x c _ h rfl rfl
+
+theorem cstep_processCommit (x : Nat) (c : Cl) (e : Ev) (b : Body) (sw : List Nat) (h : ConsMono c) :
+    CStep x c (processCommit c e b sw).1 := by
+  unfold processCommit
+  split
+  · exact cstep_same x c _ h rfl rfl
+  · exact cstep_mgrCreate_then x c (epochOf c.g.path) e _ h rfl
+      (by show (ensureSecret (mergeCommit _ _ e)).consumed = _
+          rw [ensureSecret_consumed, mergeCommit_consumed]; rfl)
+
+theorem cstep_wrongEpochCommit (x : Nat) (retry : Cl → Option (Cl × Res)) (c : Cl) (e : Ev) (ee : Nat) (h : ConsMono c)
+    (hretry : ∀ c1 r, ConsMono c1 → retry c1 = some r → CStep x c1 r.1) : CStep x c (wrongEpochCommit retry c e ee).1 := by
+  unfold wrongEpochCommit
+  split
+  · split
+    · rename_i c1 hr
+      split
+      · rename_i r hrr
+        have h1 := cstep_rollbackTo x c c1 ee h hr
+        exact h1.trans (hretry c1 r h1.inv hrr)
+      · exact cstep_notBetterResult x c e h
+    · exact cstep_notBetterResult x c e h
+  · exact cstep_notBetterResult x c e h
+
+/-- the state with `x` consumed -/
+theorem cstep_consume (x : Nat) (c : Cl) (h : ConsMono c) :
+    CStep x c { c with g := { c.g with consumed := x :: c.g.consumed } } :=
+  cstep_grow x c _ h rfl (fun _ hy => List.mem_cons_of_mem _ hy) (fun y hy => by
+    rcases List.mem_cons.mp hy with z | z
+    · exact Or.inr z
+    · exact Or.inl z)
+
+theorem cstep_step1 (retry : Cl → Option (Cl × Res)) (nx : Nat) (c : Cl) (e : Ev) (h : ConsMono c)
+    (hretry : ∀ c1 r, ConsMono c1 → retry c1 = some r → CStep e.cipher c1 r.1) :
+    CStep e.cipher c (step1 retry nx c e).1 := by
+  have hw : CStep e.cipher c (withSecret c) := cstep_same _ c _ h rfl (ensureSecret_consumed c.g)
+  unfold step1
+  split
+  · exact cstep_same _ c _ h rfl rfl
+  · simp only
+    split
+    · exact hw.trans (cstep_same _ _ _ hw.inv rfl rfl)
+    · split
+      · -- commit
+        split
+        · exact hw.trans (cstep_wrongEpochCommit _ retry _ e _ hw.inv hretry)
+        · split
+          · split
+            · refine hw.trans (cstep_mgrCreate_then _ (withSecret c) (epochOf (withSecret c).g.path) e _ hw.inv rfl ?_)
+              show (ensureSecret (mergeCommit _ _ _)).consumed = _
+              rw [ensureSecret_consumed, mergeCommit_consumed]; rfl
+            · exact hw.trans (cstep_ownMessage _ _ e hw.inv)
+          · split
+            · exact hw.trans (cstep_same _ _ _ hw.inv rfl rfl)
+            · have h1 := cstep_consume e.cipher (withSecret c) hw.inv
+              exact hw.trans (h1.trans (cstep_processCommit _ _ e _ _ h1.inv))
+      · -- leave
+        split
+        · exact hw.trans (cstep_same _ _ _ hw.inv rfl rfl)
+        · split
+          · exact hw.trans (cstep_ownMessage _ _ e hw.inv)
+          · split
+            · exact hw.trans (cstep_same _ _ _ hw.inv rfl rfl)
+            · have h1 := cstep_consume e.cipher (withSecret c) hw.inv
+              split
+              · refine hw.trans (h1.trans (cstep_same _ _ _ h1.inv rfl ?_))
+                show (ensureSecret _).consumed = _
+                rw [ensureSecret_consumed]
+              · exact hw.trans (h1.trans (cstep_same _ _ _ h1.inv rfl rfl))
+      · -- app
+        split
+        · exact hw.trans (cstep_same _ _ _ hw.inv rfl rfl)
+        · split
+          · exact hw.trans (cstep_same _ _ _ hw.inv rfl rfl)
+          · split
+            · exact hw.trans (cstep_ownMessage _ _ e hw.inv)
+            · split
+              · exact hw.trans (cstep_same _ _ _ hw.inv rfl rfl)
+              · have h1 := cstep_consume e.cipher (withSecret c) hw.inv
+                refine hw.trans (h1.trans (cstep_same _ _ _ h1.inv rfl ?_))
+                unfold storeApp
+                show (updLast _ _ _).consumed = _
+                rw [updLast_consumed]
+
+theorem cstep_deliverOnce (retry : Cl → Option (Cl × Res)) (nx : Nat) (c : Cl) (e : Ev) (h : ConsMono c)
+    (hretry : ∀ c1 r, ConsMono c1 → retry c1 = some r → CStep e.cipher c1 r.1) :
+    CStep e.cipher c (deliverOnce retry nx c e).1 := by
+  unfold deliverOnce
+  split
+  · split
+    · exact cstep_refl _ c h
+    · exact cstep_step1 retry nx c e h hretry
+  · exact cstep_step1 retry nx c e h hretry
+
+/-- **frame of `process_message` on the consumed ratchet generations**: for every state whose snapshots
+    are consistent (`ConsMono`), every event and every fuel, the consumed list grows by at most the
+    event's ciphertext, and the invariant is kept -/
+theorem cstep_deliverN (fuel nx : Nat) (c : Cl) (e : Ev) (h : ConsMono c) : CStep e.cipher c (deliverN fuel nx c e).1 := by
+  induction fuel generalizing c with
+  | zero => exact cstep_deliverOnce _ nx c e h (by intro c1 r _ hr; cases hr)
+  | succ f ih =>
+    apply cstep_deliverOnce _ nx c e h
+    intro c1 r hc1 hr
+    cases hr
+    exact ih c1 hc1
+
+theorem consMono_init (id : Nat) (p : Bool) (r : Nat) (ms as : List Nat) (name : Nat) : ConsMono (initCl id p r ms as name) where
+  below := by intro s hs; simp [initCl] at hs
+  sorted := by simp [initCl]
+
+theorem consMono_of (c c' : Cl) (h : ConsMono c) (hm : c'.mgr = c.mgr) (hg : c'.g.consumed = c.g.consumed) : ConsMono c' :=
+  (cstep_same 0 c c' h hm hg).inv
+
+/-- the other operations of the client do not touch consumed lists -/
+theorem consMono_send (c : Cl) (n ts idn mid mts tok : Nat) (h : ConsMono c) : ConsMono (send c n ts idn mid mts tok).1 := by
+  unfold send
+  split
+  · exact h
+  · apply consMono_of c _ h
+    · rfl
+    · show (updLast _ _ _).consumed = _
+      rw [updLast_consumed, ensureSecret_consumed]
+
+theorem consMono_stageCommit (c : Cl) (n ts idn : Nat) (b : Body) (na : Bool) (h : ConsMono c) :
+    ConsMono (stageCommit c n ts idn b na).1 := by
+  unfold stageCommit
+  repeat' split
+  all_goals first
+    | exact h
+    | (apply consMono_of c _ h
+       · rfl
+       · show (ensureSecret _).consumed = _
+         rw [ensureSecret_consumed])
+
+theorem consMono_leave (c : Cl) (n ts idn : Nat) (h : ConsMono c) : ConsMono (leave c n ts idn).1 := by
+  unfold leave
+  split
+  · exact h
+  · apply consMono_of c _ h
+    · rfl
+    · show (ensureSecret _).consumed = _
+      rw [ensureSecret_consumed]
+
+theorem consMono_merge (c : Cl) (h : ConsMono c) : ConsMono (merge c).1 := by
+  unfold merge
+  split
+  · exact h
+  · split
+    · apply consMono_of c _ h
+      · rfl
+      · show (mergeCommit _ _ _).consumed = _
+        rw [mergeCommit_consumed]
+    · apply consMono_of c _ h <;> rfl
+
+theorem consMono_clear (c : Cl) (h : ConsMono c) : ConsMono (clear c).1 := by
+  unfold clear
+  split
+  · exact h
+  · apply consMono_of c _ h <;> rfl
+
+theorem consMono_restart (c : Cl) (h : ConsMono c) : ConsMono (restart c).1 := by
+  unfold restart
+  split
+  · refine ⟨?_, ?_⟩
+    · intro s hs
+      simp only [List.mem_map] at hs
+      obtain ⟨t, ht, rfl⟩ := hs
+      exact h.below t ht
+    · exact List.Pairwise.map _ (fun a b hab => hab) h.sorted
+  · exact h
 
 /-! ## decidable forms of the event conditions (for closed examples) -/
 
